@@ -963,5 +963,301 @@ theorem runs_fmt (hnp : NoProgs env) (cvs : List (List Instr × Val))
 
 end
 
+/-! ### the macro loops against their declarative folds
+
+`g v` is the value of the body for the element `v`; the callback runs the body block to `outOf (g v)`
+(a failure value is a failed run) and leaves the log alone. -/
+
+section
+variable {rec : Rec} {env : Env}
+
+theorem outOf_cases (v : Val) (log : Log) :
+    (∃ k, v = .err k ∧ outOf v log = { res := .error (.err k), log := log }) ∨
+    ((∀ k, v ≠ .err k) ∧ outOf v log = { res := .ok v, log := log }) := by
+  cases v <;> simp [outOf]
+
+theorem andThen_err (k : ErrKind) (f : Val → Val) : (Val.err k).andThen f = .err k := rfl
+
+theorem andThen_nonerr {v : Val} (h : ∀ k, v ≠ .err k) (f : Val → Val) : v.andThen f = f v := by
+  cases v <;> first | rfl | exact absurd rfl (h _)
+
+theorem data_andThen {v : Val} {f : Val → Val} (h : Data (f v)) : Data (v.andThen f) := by
+  cases v <;> first | exact h | rfl
+
+theorem data_consVal {x v : Val} (hx : Data x) (hv : Data v) : Data (consVal x v) := by
+  cases v <;> simp only [consVal] <;> try exact hv
+  rw [data_list] at hv ⊢
+  intro z hz
+  rcases List.mem_cons.mp hz with rfl | hz
+  · exact hx
+  · exact hv z hz
+
+theorem consVal_acc (acc : List Val) (x v : Val) :
+    (match consVal x v with
+     | .list out => Val.list (acc.reverse ++ out)
+     | e => e) =
+    (match v with
+     | .list out => Val.list ((x :: acc).reverse ++ out)
+     | e => e) := by
+  cases v <;> simp [consVal]
+
+/-- How one element's body run looks to the loops. -/
+theorem runBody_eq {x : Str} {body : List Instr} {v r : Val} (h : ∀ log, rec (env.bind x v) body true log = outOf r log)
+    (log : Log) : runBody rec env x v body log = outOf r log := h log
+
+theorem loop_all (x : Str) (body : List Instr) (g : Val → Val) : ∀ (l : List Val) (log : Log),
+    (∀ v ∈ l, ∀ log, rec (env.bind x v) body true log = outOf (g v) log) →
+    loopList rec env x body (fun (_ : Unit) _ r => if truthy r then .inr () else .inl (.bool false))
+      (fun _ => .bool true) l () log = (allVal g l, log) := by
+  intro l
+  induction l with
+  | nil => intro log _; rfl
+  | cons v vs ih =>
+    intro log h
+    have ih' := ih log (fun w hw => h w (List.mem_cons_of_mem _ hw))
+    rw [loopList, runBody_eq (h v (List.mem_cons_self ..)), allVal]
+    rcases outOf_cases (g v) log with ⟨k, hk, ho⟩ | ⟨hne, ho⟩
+    · rw [ho, hk]; rfl
+    · rw [ho, andThen_nonerr hne]
+      by_cases ht : truthy (g v) = true <;> simp [ht, ih']
+
+theorem loop_exists (x : Str) (body : List Instr) (g : Val → Val) : ∀ (l : List Val) (log : Log),
+    (∀ v ∈ l, ∀ log, rec (env.bind x v) body true log = outOf (g v) log) →
+    loopList rec env x body (fun (_ : Unit) _ r => if truthy r then .inl (.bool true) else .inr ())
+      (fun _ => .bool false) l () log = (existsVal g l, log) := by
+  intro l
+  induction l with
+  | nil => intro log _; rfl
+  | cons v vs ih =>
+    intro log h
+    have ih' := ih log (fun w hw => h w (List.mem_cons_of_mem _ hw))
+    rw [loopList, runBody_eq (h v (List.mem_cons_self ..)), existsVal]
+    rcases outOf_cases (g v) log with ⟨k, hk, ho⟩ | ⟨hne, ho⟩
+    · rw [ho, hk]; rfl
+    · rw [ho, andThen_nonerr hne]
+      by_cases ht : truthy (g v) = true <;> simp [ht, ih']
+
+theorem loop_one (x : Str) (body : List Instr) (g : Val → Val) : ∀ (l : List Val) (n : Nat) (log : Log),
+    (∀ v ∈ l, ∀ log, rec (env.bind x v) body true log = outOf (g v) log) →
+    loopList rec env x body
+      (fun (n : Nat) _ r => if truthy r then (if n ≥ 1 then .inl (.bool false) else .inr (n + 1)) else .inr n)
+      (fun n => .bool (n == 1)) l n log = (oneVal g l n, log) := by
+  intro l
+  induction l with
+  | nil => intro n log _; rfl
+  | cons v vs ih =>
+    intro n log h
+    have ih' := fun m => ih m log (fun w hw => h w (List.mem_cons_of_mem _ hw))
+    rw [loopList, runBody_eq (h v (List.mem_cons_self ..)), oneVal]
+    rcases outOf_cases (g v) log with ⟨k, hk, ho⟩ | ⟨hne, ho⟩
+    · rw [ho, hk]; rfl
+    · rw [ho, andThen_nonerr hne]
+      by_cases ht : truthy (g v) = true
+      · by_cases hn : n ≥ 1
+        · simp [ht, hn]
+        · simp [ht, hn, ih']
+      · simp [ht, ih']
+
+theorem loop_filter (x : Str) (body : List Instr) (g : Val → Val) : ∀ (l acc : List Val) (log : Log),
+    (∀ v ∈ l, ∀ log, rec (env.bind x v) body true log = outOf (g v) log) →
+    loopList rec env x body (fun (acc : List Val) v r => .inr (if truthy r then v :: acc else acc))
+      (fun acc => .list acc.reverse) l acc log =
+      (match filterVal g l with
+       | .list out => .list (acc.reverse ++ out)
+       | e => e, log) := by
+  intro l
+  induction l with
+  | nil => intro acc log _; simp [loopList, filterVal]
+  | cons v vs ih =>
+    intro acc log h
+    have ih' := fun a => ih a log (fun w hw => h w (List.mem_cons_of_mem _ hw))
+    rw [loopList, runBody_eq (h v (List.mem_cons_self ..)), filterVal]
+    rcases outOf_cases (g v) log with ⟨k, hk, ho⟩ | ⟨hne, ho⟩
+    · rw [ho, hk]; rfl
+    · rw [ho, andThen_nonerr hne]
+      by_cases ht : truthy (g v) = true
+      · simp only [ht, if_true, ih', consVal_acc]
+      · simp [ht, ih']
+
+theorem loop_map (x : Str) (body : List Instr) (g : Val → Val) : ∀ (l acc : List Val) (log : Log),
+    (∀ v ∈ l, ∀ log, rec (env.bind x v) body true log = outOf (g v) log) →
+    loopList rec env x body (fun (acc : List Val) _ r => .inr (r :: acc))
+      (fun acc => .list acc.reverse) l acc log =
+      (match mapVal g l with
+       | .list out => .list (acc.reverse ++ out)
+       | e => e, log) := by
+  intro l
+  induction l with
+  | nil => intro acc log _; simp [loopList, mapVal]
+  | cons v vs ih =>
+    intro acc log h
+    have ih' := fun a => ih a log (fun w hw => h w (List.mem_cons_of_mem _ hw))
+    rw [loopList, runBody_eq (h v (List.mem_cons_self ..)), mapVal]
+    rcases outOf_cases (g v) log with ⟨k, hk, ho⟩ | ⟨hne, ho⟩
+    · rw [ho, hk]; rfl
+    · rw [ho, andThen_nonerr hne]
+      simp only [ih', consVal_acc]
+
+theorem loop_map3 (x : Str) (p e : List Instr) (gp ge : Val → Val) : ∀ (l acc : List Val) (log : Log),
+    (∀ v ∈ l, ∀ log, rec (env.bind x v) p true log = outOf (gp v) log) →
+    (∀ v ∈ l, ∀ log, rec (env.bind x v) e true log = outOf (ge v) log) →
+    loopMap3 rec env x p e l acc log =
+      (match map3Val gp ge l with
+       | .list out => .list (acc.reverse ++ out)
+       | e => e, log) := by
+  intro l
+  induction l with
+  | nil => intro acc log _ _; simp [loopMap3, map3Val]
+  | cons v vs ih =>
+    intro acc log hp he
+    have ih' := fun a => ih a log (fun w hw => hp w (List.mem_cons_of_mem _ hw)) (fun w hw => he w (List.mem_cons_of_mem _ hw))
+    rw [loopMap3, runBody_eq (hp v (List.mem_cons_self ..)), map3Val]
+    rcases outOf_cases (gp v) log with ⟨k, hk, ho⟩ | ⟨hne, ho⟩
+    · rw [ho, hk]; rfl
+    · rw [ho, andThen_nonerr hne]
+      by_cases ht : truthy (gp v) = true
+      · simp only [ht, if_true]
+        rw [runBody_eq (he v (List.mem_cons_self ..))]
+        rcases outOf_cases (ge v) log with ⟨k, hk2, ho2⟩ | ⟨hne2, ho2⟩
+        · rw [ho2, hk2]; rfl
+        · rw [ho2, andThen_nonerr hne2]
+          simp only [ih', consVal_acc]
+      · simp only [ht, if_false, ih']
+        simp
+
+theorem loop_reduce (cur nxt : Str) (step : List Instr) (g : Val → Val → Val) (P : Val → Prop)
+    (hP : ∀ acc v, P acc → P (g acc v)) : ∀ (l : List Val) (acc : Val) (log : Log), P acc →
+    (∀ v ∈ l, ∀ acc, P acc → ∀ log, rec ((env.bind nxt v).bind cur acc) step true log = outOf (g acc v) log) →
+    loopReduce rec env cur nxt step l acc log = (reduceVal g l acc, log) := by
+  intro l
+  induction l with
+  | nil => intro acc log _ _; rfl
+  | cons v vs ih =>
+    intro acc log hacc h
+    rw [loopReduce, h v (List.mem_cons_self ..) acc hacc log, reduceVal]
+    rcases outOf_cases (g acc v) log with ⟨k, hk, ho⟩ | ⟨hne, ho⟩
+    · rw [ho, hk]; rfl
+    · rw [ho, andThen_nonerr hne]
+      exact ih _ log (hP acc v hacc) (fun w hw => h w (List.mem_cons_of_mem _ hw))
+
+theorem loop_coalesce : ∀ (bvs : List (List Instr × Val)) (log : Log),
+    (∀ p ∈ bvs, ∀ log, rec env p.1 true log = outOf p.2 log) →
+    coalesceLoop rec env (bvs.map (·.1)) log = (coalesceVal (bvs.map (·.2)), log) := by
+  intro bvs
+  induction bvs with
+  | nil => intro log _; rfl
+  | cons p ps ih =>
+    obtain ⟨c, v⟩ := p
+    intro log h
+    have h1 := h (c, v) (List.mem_cons_self ..) log
+    have ih' := ih log (fun q hq => h q (List.mem_cons_of_mem _ hq))
+    simp only [List.map_cons, coalesceLoop, h1]
+    cases v <;> simp only [outOf, coalesceVal, ih'] <;> try rfl
+    rename_i k
+    cases k <;> simp [absentKind, ih', Abort.kind]
+
+/-! data-ness of the folds -/
+
+theorem data_allVal (g : Val → Val) (l : List Val) : Data (allVal g l) := by
+  induction l with
+  | nil => rfl
+  | cons v vs ih =>
+    rw [allVal]; apply data_andThen
+    split
+    · exact ih
+    · rfl
+
+theorem data_existsVal (g : Val → Val) (l : List Val) : Data (existsVal g l) := by
+  induction l with
+  | nil => rfl
+  | cons v vs ih =>
+    rw [existsVal]; apply data_andThen
+    split
+    · rfl
+    · exact ih
+
+theorem data_oneVal (g : Val → Val) (l : List Val) : ∀ n, Data (oneVal g l n) := by
+  induction l with
+  | nil => intro n; rfl
+  | cons v vs ih =>
+    intro n; rw [oneVal]; apply data_andThen
+    split
+    · split
+      · rfl
+      · exact ih _
+    · exact ih _
+
+theorem data_filterVal (g : Val → Val) (l : List Val) (hl : ∀ v ∈ l, Data v) : Data (filterVal g l) := by
+  induction l with
+  | nil => rfl
+  | cons v vs ih =>
+    have ih' := ih (fun w hw => hl w (List.mem_cons_of_mem _ hw))
+    rw [filterVal]; apply data_andThen
+    split
+    · exact data_consVal (hl v (List.mem_cons_self ..)) ih'
+    · exact ih'
+
+theorem data_mapVal (g : Val → Val) (l : List Val) (hg : ∀ v ∈ l, Data (g v)) : Data (mapVal g l) := by
+  induction l with
+  | nil => rfl
+  | cons v vs ih =>
+    have ih' := ih (fun w hw => hg w (List.mem_cons_of_mem _ hw))
+    rw [mapVal]; apply data_andThen
+    exact data_consVal (hg v (List.mem_cons_self ..)) ih'
+
+theorem data_map3Val (gp ge : Val → Val) (l : List Val) (hg : ∀ v ∈ l, Data (ge v)) : Data (map3Val gp ge l) := by
+  induction l with
+  | nil => rfl
+  | cons v vs ih =>
+    have ih' := ih (fun w hw => hg w (List.mem_cons_of_mem _ hw))
+    rw [map3Val]; apply data_andThen
+    split
+    · apply data_andThen
+      exact data_consVal (hg v (List.mem_cons_self ..)) ih'
+    · exact ih'
+
+theorem data_reduceVal (g : Val → Val → Val) (hg : ∀ acc v, Data acc → Data (g acc v)) (l : List Val) :
+    ∀ acc, Data acc → Data (reduceVal g l acc) := by
+  induction l with
+  | nil => intro acc h; exact h
+  | cons v vs ih =>
+    intro acc h
+    rw [reduceVal]; apply data_andThen
+    exact ih _ (hg acc v h)
+
+theorem data_coalesceVal (vs : List Val) (h : ∀ v ∈ vs, Data v) : Data (coalesceVal vs) := by
+  induction vs with
+  | nil => rfl
+  | cons v vs ih =>
+    have ih' := ih (fun w hw => h w (List.mem_cons_of_mem _ hw))
+    have hv := h v (List.mem_cons_self ..)
+    cases v <;> simp only [coalesceVal] <;> first | exact hv | exact ih' | skip
+    split
+    · exact ih'
+    · rfl
+
+theorem data_hasVal (v : Val) : Data (hasVal v) := by
+  cases v <;> simp only [hasVal] <;> first | rfl | skip
+  split <;> rfl
+
+theorem data_rangeOf {allowMap : Bool} {this : Val} {l : List Val} (ht : Data this)
+    (h : rangeOf allowMap this = some l) : ∀ v ∈ l, Data v := by
+  cases this with
+  | list l' =>
+    simp only [rangeOf, Option.some.injEq] at h
+    subst h
+    exact data_list.mp ht
+  | map m =>
+    simp only [rangeOf] at h
+    split at h
+    · cases h
+      intro v hv
+      obtain ⟨p, _, rfl⟩ := List.mem_map.mp hv
+      rfl
+    · cases h
+  | _ => simp [rangeOf] at h
+
+end
+
 end Seq
 end Rscel
